@@ -52,7 +52,7 @@ Full statement / proved / missing
   NotUndef / Variant / alias wrapper around an acceptable type is reported (`C19_typeMismatch_nested_wrapper`); the top level is protected by
   the guard of `describe`.  Same remark.
 * `C19_signatures_total`      — PROVED: `describeSignatures` (the argument-error description of a dispatch, model `DescribeSig.lean`: signatures with
-                                lattice parameter types, call without a block) never faults for a call that respects the contract of
+                                lattice parameter types, call without or WITH a block: describeSignatureBlock, unexpectedBlock, the block's signature described against the block type) never faults for a call that respects the contract of
                                 px.DescribeSignatures (`SigOK`: a parameter tuple with matching names that declares a type unless it takes no
                                 argument; `ArgsOK`: a Tuple / Array type that can have as many elements as it declares).  WITHOUT the contract the
                                 faults are real, in the model and in the code (`C19_signatures_fault_*`, replayed from corpus/C19/structure.ops):
@@ -342,26 +342,26 @@ example (cfg : Cfg) : asg cfg true (.int ⟨1, 2⟩) .str = false := by simp [as
 
 /-! ### describeSignatures -/
 /-- NO FAULT in the argument-error description of a dispatch, for every call that respects the contract -/
-theorem C19_signatures_total (cfg : Cfg) (sfh : Bool) (sigs : List Sig) (args : Ty) (hs : ∀ sg ∈ sigs, SigOK sg) (ha : ArgsOK args) :
-    ∀ k, describeSignatures cfg sfh sigs args ≠ .fault k :=
-  describeSignatures_total cfg sfh sigs args hs ha
+theorem C19_signatures_total (cfg : Cfg) (sfh : Bool) (sigs : List Sig) (args : Ty) (blk : Option CT)
+    (hs : ∀ sg ∈ sigs, SigOK sg) (ha : ArgsOK args) : ∀ k, describeSignatures cfg sfh sigs args blk ≠ .fault k :=
+  describeSignatures_total cfg sfh sigs args blk hs ha
 
 /-- the hypotheses are satisfiable: (String, Integer…) called with ('a', 1, 2) — and it is described without fault -/
-example : SigOK { params := some ([.str, .int Rng.all], ⟨1, I64.max⟩), names := ["1", "2"], block := .none } :=
+example : SigOK { params := some ([.str, .int Rng.all], ⟨1, I64.max⟩), names := ["1", "2"], block := none } :=
   ⟨_, _, rfl, rfl, by simp⟩
 example : ArgsOK (.tuple [.strVal "a", .int ⟨1, 1⟩, .int ⟨2, 2⟩] none) := by simp [ArgsOK, tupleSize, Rng.exact]
 
 /-- outside the contract the faults are real: an argument type that is not the type of an argument list -/
 theorem C19_signatures_fault_nilSize (cfg : Cfg) :
-    describeSignatures cfg true [{ params := some ([.str], ⟨1, 1⟩), names := ["1"], block := .none }] (.int ⟨1, 1⟩) = .fault .nilSize := by
+    describeSignatures cfg true [{ params := some ([.str], ⟨1, 1⟩), names := ["1"], block := none }] (.int ⟨1, 1⟩) none = .fault .nilSize := by
   simp [describeSignatures, sigAllArgs, sigArguments]
 /-- … the default Callable as a signature -/
 theorem C19_signatures_fault_nilParams (cfg : Cfg) :
-    describeSignatures cfg true [{ params := none, names := [], block := .none }] (.tuple [.strVal "a"] none) = .fault .nilParams := by
+    describeSignatures cfg true [{ params := none, names := [], block := none }] (.tuple [.strVal "a"] none) none = .fault .nilParams := by
   simp [describeSignatures, sigAllArgs, sigArguments]
 /-- … a parameter tuple without types that takes an argument (Callable[1, 1]) -/
 theorem C19_signatures_fault_paramIndex (cfg : Cfg) :
-    describeSignatures cfg true [{ params := some ([], ⟨1, 1⟩), names := [], block := .none }] (.tuple [.strVal "a"] none) = .fault .paramIndex := by
+    describeSignatures cfg true [{ params := some ([], ⟨1, 1⟩), names := [], block := none }] (.tuple [.strVal "a"] none) none = .fault .paramIndex := by
   simp [describeSignatures, sigAllArgs, sigArguments, sigArgLoop, tupleSize, Rng.exact, Rng.sub]
 
 /-! ### Callable expectations -/
